@@ -189,6 +189,12 @@ type zzC17T struct {
 
 type zzC17Named map[string]any
 
+// a struct with an embedded struct: C (json "c") is promoted
+type zzC17Emb struct {
+	zzC17Inner
+	N string `json:"n"`
+}
+
 func zzC17Value() map[string]any {
 	return map[string]any{
 		"a": map[string]any{
@@ -205,6 +211,10 @@ func zzC17Value() map[string]any {
 		"ps":   &[]string{"x", "y"},
 		"tm":   map[string]int{"7": 70, "k": 1},
 		"nm":   zzC17Named{"0": "named-zero", "k": "nk"},
+		"sos":  []zzC17T{{X: 1, T: "one"}, {X: 2, T: "two"}},
+		"pm":   &map[string]any{"k": "pk"},
+		"emb":  zzC17Emb{zzC17Inner: zzC17Inner{C: 3}, N: "en"},
+		"pemb": &zzC17Emb{zzC17Inner: zzC17Inner{C: 4}, N: "pn"},
 	}
 }
 
@@ -256,6 +266,30 @@ func zzC17Index(cur any, seg string) (any, bool) {
 			return nil, false
 		}
 		return zzC17Index(*c, seg)
+	case []zzC17T:
+		i, err := strconv.Atoi(seg)
+		if err != nil || i < 0 || i >= len(c) {
+			return nil, false
+		}
+		return c[i], true
+	case *map[string]any:
+		if c == nil {
+			return nil, false
+		}
+		return zzC17Index(*c, seg)
+	case *zzC17Emb:
+		if c == nil {
+			return nil, false
+		}
+		return zzC17Index(*c, seg)
+	case zzC17Emb:
+		switch seg {
+		case "N", "n":
+			return c.N, true
+		case "C":
+			return c.C, true // promoted through the embedded struct
+		}
+		return nil, false
 	case zzC17T:
 		switch seg {
 		case "X":
@@ -272,7 +306,7 @@ func zzC17Index(cur any, seg string) (any, bool) {
 
 var zzNilPtr = (*int)(nil)
 
-var zzC17Segs = []string{"a", "b", "m", "k", "c", "arr", "p", "s", "nilp", "sl", "X", "Y", "T", "t", "u", "0", "1", "2", "9", "-1", "zz", "pa", "ps", "tm", "nm", "7"}
+var zzC17Segs = []string{"a", "b", "m", "k", "c", "arr", "p", "s", "nilp", "sl", "X", "Y", "T", "t", "u", "0", "1", "2", "9", "-1", "zz", "pa", "ps", "tm", "nm", "7", "sos", "pm", "emb", "pemb", "N", "n", "C"}
 
 // VerifC17_Paths: every well-formed dotted / bracketed path of up to three
 // segments resolves to what Go indexing reaches, or is reported absent.
